@@ -223,6 +223,41 @@ def decoder_entries(P):
     return out
 
 
+def lenient_class(cons):
+    """early-break: a break sits where an element of a DEFINITE container (or the top level) is due; else declared-length"""
+    stack = []          # remaining element counts of open containers (None = indefinite)
+    for t in cons:
+        if t[0] == "special" and t[1] == "Break":
+            if stack and stack[-1] is None:
+                stack.pop()
+                # the closed container was itself an element of its parent
+                while stack and stack[-1] is not None:
+                    stack[-1] -= 1
+                    if stack[-1] > 0:
+                        break
+                    stack.pop()
+                continue
+            return "early-break"
+        if t[0] == "tag":
+            continue
+        if t[0] in ("array", "map"):
+            n = t[1]
+            if n is None:
+                stack.append(None); continue
+            n = n * (2 if t[0] == "map" else 1) if isinstance(n, int) else None
+            if n is None:
+                return "declared-length"
+            if n > 0:
+                stack.append(n); continue
+        # a complete element
+        while stack and stack[-1] is not None:
+            stack[-1] -= 1
+            if stack[-1] > 0:
+                break
+            stack.pop()
+    return "declared-length"
+
+
 def run_decoder(P, ty, entry, streams, max_paths=80):
     """-> (runs, problems[(what, tokens)], unsupported reason | None, truncated)"""
     probs, n, trunc, paths = [], 0, 0, 0
@@ -257,8 +292,7 @@ def run_decoder(P, ty, entry, streams, max_paths=80):
                                 starts_item = True
                             if not starts_item:
                                 # no well-formed item starts here at all (as opposed to: consumed past the end of its own item)
-                                early = any(t[0] == "special" and t[1] == "Break" for t in cons) and not any(t[0] in ("array", "map") and t[1] is None for t in cons)
-                                lenient.append(("early-break" if early else "declared-length", cons))
+                                lenient.append((lenient_class(cons), cons))
         except Unsupported as e:
             if "more than" in str(e) and "paths" in str(e):
                 trunc += 1
